@@ -632,22 +632,24 @@ impl Prop for C19 {
 // ------------------------------------------------------------------------------------------------
 // C19 / C05: the same registration sequences in a second process and without the `parallel` feature
 
+/// replay of one plan through the external comparisons
+pub fn replay_external(property: &'static str, case: &serde_json::Value) -> Result<Result<(), String>, String> {
+    let plan: Plan = serde_json::from_value(case.clone()).map_err(|e| e.to_string())?;
+    let r = run_external_on(property, vec![plan], 0);
+    if let Some(h) = r.harness_error {
+        return Err(h);
+    }
+    Ok(match r.violation {
+        Some(v) => Err(v.msg),
+        None => Ok(()),
+    })
+}
+
 pub fn run_external(property: &'static str, quick: bool, seed: u64) -> crate::driver::SubResult {
-    use crate::driver::{verif_dir, SubResult, Violation};
     use proptest::collection::vec as pvec;
     use proptest::prelude::any;
     use proptest::strategy::{Strategy, ValueTree};
     use proptest::test_runner::{Config, RngSeed, TestRunner};
-    let t0 = std::time::Instant::now();
-    let name = if property == "C19" { "c19-processes" } else { "c05-nopar" };
-    let rule = if property == "C19" {
-        "generated registration sequences (general generator) summarised (canonical nested layout) in this process, in a SECOND PROCESS of the same binary (ahash is seeded per process) and by the harness built against shred WITHOUT the `parallel` feature; oracle: the three layouts are identical; non-trivial = >= 2 stages; distinct = plan hash"
-    } else {
-        "generated registration sequences whose systems apply order-sensitive updates, dispatched 2x sequentially in this process (dispatch_seq + thread-local), in a second process, and by the harness built WITHOUT the `parallel` feature (both dispatch_seq + thread-local and plain dispatch); oracle: world contents, every system's state and run counters are identical in all of them; non-trivial = a resource written by >= 2 systems; distinct = plan hash"
-    };
-    let mut stats = Stats::default();
-    let mut violation = None;
-    let mut harness_error = None;
     let n = if quick { 1500 } else { 60_000 };
     let cfg = Config {
         rng_seed: RngSeed::Fixed(seed.wrapping_mul(64).wrapping_add(19)),
@@ -666,6 +668,21 @@ pub fn run_external(property: &'static str, quick: bool, seed: u64) -> crate::dr
         let stream = strat.new_tree(&mut runner).map(|t| t.current()).unwrap_or_default();
         plans.push(gen_plan(&mut Src::new(&stream), &gcfg));
     }
+    run_external_on(property, plans, seed)
+}
+
+fn run_external_on(property: &'static str, plans: Vec<Plan>, seed: u64) -> crate::driver::SubResult {
+    use crate::driver::{verif_dir, SubResult, Violation};
+    let t0 = std::time::Instant::now();
+    let name = if property == "C19" { "c19-processes" } else { "c05-nopar" };
+    let rule = if property == "C19" {
+        "generated registration sequences (general generator) summarised (canonical nested layout) in this process, in a SECOND PROCESS of the same binary (ahash is seeded per process) and by the harness built against shred WITHOUT the `parallel` feature; oracle: the three layouts are identical; non-trivial = >= 2 stages; distinct = plan hash"
+    } else {
+        "generated registration sequences whose systems apply order-sensitive updates, dispatched 2x sequentially in this process (dispatch_seq + thread-local), in a second process, and by the harness built WITHOUT the `parallel` feature (both dispatch_seq + thread-local and plain dispatch); oracle: world contents, every system's state and run counters are identical in all of them; non-trivial = a resource written by >= 2 systems; distinct = plan hash"
+    };
+    let mut stats = Stats::default();
+    let mut violation = None;
+    let mut harness_error = None;
     let td = std::env::var("CARGO_TARGET_DIR").unwrap_or_else(|_| verif_dir().join("target").to_string_lossy().to_string());
     let dir = std::path::Path::new(&td).join("external");
     let _ = std::fs::create_dir_all(&dir);
